@@ -126,6 +126,15 @@ def call_sampler(kind, N, lls, path, opts, uniform_plan, perm=None, pool_spec=No
     else:
         prior_samples = seams.stub_library(N, ln_prior=lnprior_tags(N) if with_lnprior else None)
         in_memory = path == "inmem"
+    before = None
+    if not isinstance(prior_samples, str):
+        before = {k: np.array(prior_samples.tbl[k].value if hasattr(prior_samples.tbl[k], "value") else prior_samples.tbl[k]).copy()
+                  for k in prior_samples.par_names}
+    else:
+        import hashlib
+
+        with open(prior_samples, "rb") as fh:
+            before = hashlib.sha256(fh.read()).hexdigest()
     try:
         if kind == "rejection":
             res = joker.rejection_sample(None, prior_samples, in_memory=in_memory, **opts)
@@ -139,6 +148,24 @@ def call_sampler(kind, N, lls, path, opts, uniform_plan, perm=None, pool_spec=No
         if isinstance(e, (KeyboardInterrupt, SystemExit, seams.HarnessDivergence)):
             raise
         run.exc = e
+    # the caller's library (object or file) must come back unmodified
+    if isinstance(before, dict):
+        for k, v in before.items():
+            if k not in prior_samples.par_names:
+                run.problems.append(f"column {k} disappeared from the caller's prior-samples object")
+                break
+            now = np.array(prior_samples.tbl[k].value if hasattr(prior_samples.tbl[k], "value") else prior_samples.tbl[k])
+            if now.shape != v.shape or not np.array_equal(now, v, equal_nan=True):
+                run.problems.append(f"the sampler modified column {k} of the caller's prior-samples object")
+                break
+        if list(before) != list(prior_samples.par_names) and not run.problems:
+            run.problems.append("the sampler changed the columns of the caller's prior-samples object")
+    else:
+        import hashlib
+
+        with open(prior_samples, "rb") as fh:
+            if hashlib.sha256(fh.read()).hexdigest() != before:
+                run.problems.append("the sampler modified the user's prior-samples file")
     run.rng_log = list(rng.log)
     run.call_log = list(seams.CALL_LOG)
     run.choice_args = choice_state.get("args")
